@@ -233,6 +233,7 @@ bad_nOpts:
         else
           continue;
       }
+      bs = 0;      /* only initial backspaces are omitted */
       solve_msg_.append(b1, n1);
     }
     while((j = getc(f)) == '\n' || j == '\r');
